@@ -4,6 +4,11 @@ ROOT = os.path.dirname(os.path.dirname(os.path.abspath(__file__)))
 TEST_CMD = "cd /repo && env -u LIGHTWORKS_VERIF /venv/bin/python -m pytest -ra -q -p no:cacheprovider --timeout=900 --continue-on-collection-errors -n 16"
 ALL = [f"C{i:02d}" for i in range(1, 20)]
 CHECKS = {
+    "C01": dict(
+        text="Coq theorems, for every construction program and every real parameter value: compile succeeds, U_full has one extra mode per loss element, U_full is unitary, and its leading block (Circuit.U) is the insertion-ordered product of the component embeddings with a loss element as the factor sqrt(1-loss) (generic over commutative *-rings, instantiated at the reals with sqrt/cos/sin); tied to /repo by a correspondence run of generated API programs (exact rational amplitudes) and a numpy oracle re-computing the ordered product and unitarity on arbitrary values.",
+        note="Coq kernel + vm_compute (bigQ execution instance only in the correspondence); stdlib Reals axioms for the real-valued theorem; hand-written model of Circuit.bs/ps/loss/barrier/mode_swaps/add, CompiledCircuit.add and components.get_unitary; floats vs exact rationals at 1e-9.",
+        technique="Coq proof (induction over the program, unitarity of embeddings over an abstract *-ring) + model/implementation correspondence",
+        ref="6 C01"),
     "C18": dict(
         text="Unbounded Coq theorems over the hand-written model of State/AnnotatedState/heralding_utils/fock_basis/conversion (equality, +/merge laws, slicing, label-multiset equality, herald insertion/removal round trip for every state and herald dictionary, Fock-basis exactness, dB inverses over R) plus a correspondence run tying the model to /repo on generated inputs and a direct oracle of the property on the implementation.",
         note="Coq kernel + vm_compute; stdlib Reals axioms for the dB theorem only; model is hand-written and tied to the code by the per-run correspondence check; random_unitary/permutation and float dB round trip checked by the Python oracle only.",
